@@ -311,7 +311,7 @@ fn palindrome(r: &mut Rng, half: usize, alpha: &[u8]) -> Vec<u8> {
 pub fn gen_reads(r: &mut Rng, k: usize) -> (Vec<Vec<u8>>, &'static str) {
     let alphas: [&[u8]; 5] = [&[0, 3], &[1, 2], &[0, 1, 3], &[0, 1, 2, 3], &[0, 1, 2, 3]];
     let alpha = *r.pick(&alphas);
-    let fam = r.below(13);
+    let fam = r.below(14);
     match fam {
         0 => {
             // homopolymer / short-period tandem repeat
@@ -392,6 +392,20 @@ pub fn gen_reads(r: &mut Rng, k: usize) -> (Vec<Vec<u8>>, &'static str) {
                 v.push(e);
             }
             (v, "coverage+tip")
+        }
+        10 => {
+            // a run of A (the all-zero k-mer, K::empty()) or of T inside random flanks: nodes that start / end with A^K
+            let b = *r.pick(&[0u8, 0, 3]);
+            let mut s = r.dna_range(0, k + 3, &[0, 1, 2, 3]);
+            s.extend(std::iter::repeat(b).take(r.range(k, k + 4)));
+            s.extend(r.dna_range(0, k + 3, &[0, 1, 2, 3]));
+            let mut v = vec![s];
+            if r.chance(1, 2) {
+                let mut t = r.dna_range(1, k, &[0, 1, 2, 3]);
+                t.extend(std::iter::repeat(b).take(k));
+                v.push(t);
+            }
+            (v, "poly-run")
         }
         8 | 9 => {
             // strand trap: k-mer X seen once (rejected at threshold 2) after a prefix seen twice, and rc(X) ending a
